@@ -141,6 +141,13 @@ def rules_for(rng, rinsts):
 
 
 def judge(ctx, ws, text, origin):
+    with ctx.ambient_log():
+        if ctx.last_log_level != "warning":
+            origin = origin + f" [logger at {ctx.last_log_level}]"
+        return _judge(ctx, ws, text, origin)
+
+
+def _judge(ctx, ws, text, origin):
     rinsts, stats = refline.read_listing(text)
     if not rinsts:
         return
@@ -148,7 +155,7 @@ def judge(ctx, ws, text, origin):
     p1, p2 = ws.write("a.s", text), ws.write("b.s", text2.encode())      # bytes: keep the chosen line endings as they are
     # the rule that asks for the stream sometimes configures valid_addr_range (a second observer in the chain), and sometimes a
     # run WITH the option on L precedes the plain comparison (nothing of that run may stick to the lines of L)
-    mode = ctx.rng.random() if origin != "syn" else 1.0     # synthetic listings give branch mnemonics arbitrary operands, which the option rejects
+    mode = ctx.rng.random() if not origin.startswith("syn") else 1.0     # synthetic listings give branch mnemonics arbitrary operands, which the option rejects
     RANGE = "config:\n  valid_addr_range:\n    min: '0'\n    max: 'ffffffffffffffff'\npattern:\n  - zzzzzz\n"
     rule_text = RANGE if mode < 0.25 else "pattern:\n  - zzzzzz\n"
     if ctx.rng.random() < 0.25:
